@@ -21,6 +21,74 @@ A0 = sys.argv            # the list objects kernprof's decorators capture when i
 P0 = sys.path
 
 
+def run_rt(kernprof, sched, interval):
+    """Drive the real kernprof.RepeatedTimer through a schedule of Fire / DumpDone / Stop.
+    The dump function blocks until the schedule says DumpDone, so that stop() can be placed
+    inside a dump deterministically.  Returns which scheduled expiries happened and how many
+    timer threads are alive at the end, after all dumps in progress were let go."""
+    import time
+    lock = threading.Lock()
+    entered = threading.Semaphore(0)
+    pending = []          # (release event, thread) of dumps in progress, oldest first
+    state = dict(entries=0, free=False)
+
+    def dump(outfile):
+        ev = threading.Event()
+        with lock:
+            state['entries'] += 1
+            pending.append((ev, threading.current_thread()))
+        entered.release()
+        if not state['free']:
+            ev.wait(20)
+    before = set(threading.enumerate())
+    rt = kernprof.RepeatedTimer(interval, dump, 'unused.out')
+    fires = []
+    try:
+        for e in sched:
+            if e == 'Fire':
+                fires.append(entered.acquire(timeout=3.5 * interval))
+            elif e == 'DumpDone':
+                with lock:
+                    item = pending.pop(0) if pending else None
+                if item is not None:
+                    item[0].set()
+                    item[1].join(5.0)
+            elif e == 'Stop':
+                rt.stop()
+            else:
+                raise AssertionError(e)
+        scheduled = sum(1 for f in fires if f)
+        # the dumps still in progress return
+        while True:
+            with lock:
+                item = pending.pop(0) if pending else None
+            if item is None:
+                break
+            item[0].set()
+            item[1].join(5.0)
+        time.sleep(0.01)
+        for t in threading.enumerate():
+            if isinstance(t, threading.Timer) and t not in before and t.finished.is_set():
+                t.join(2.0)
+        alive = [t for t in threading.enumerate() if t not in before and t.is_alive()]
+        noisy = state['entries'] != scheduled       # an expiry nobody scheduled slipped in (machine stalled)
+        return dict(fires=fires, threads=len(alive), noisy=noisy, entries=state['entries'])
+    finally:
+        state['free'] = True
+        rt.stop()
+        for _ in range(3):
+            for t in threading.enumerate():
+                if isinstance(t, threading.Timer) and t not in before:
+                    t.cancel()
+            with lock:
+                items, pending[:] = list(pending), []
+            for ev, th in items:
+                ev.set()
+            for t in threading.enumerate():
+                if t not in before and t is not threading.current_thread():
+                    t.join(2.0)
+
+
 def main():
     payload = read_payload()
     tmp = os.path.realpath(payload['tmp'])
@@ -148,7 +216,13 @@ def main():
                 use, use_err = 3, '%s: %s' % (type(e).__name__, e)
         out.append(dict(before=before, seen=seen, use=use, use_err=use_err))
     reset(dict(profile='undecided', argv=['driver'], argv_rebound=False, path_rebound=False))
-    emit(dict(cases=out, kernprof_file=kernprof.__file__, tmp=tmp))
+    rt_out = []
+    for sched in payload.get('rt', []):
+        r = run_rt(kernprof, sched, payload.get('rt_interval', 0.12))
+        if r['noisy']:
+            r = run_rt(kernprof, sched, payload.get('rt_interval', 0.12) * 2)
+        rt_out.append(r)
+    emit(dict(cases=out, rt=rt_out, kernprof_file=kernprof.__file__, tmp=tmp))
 
 
 if __name__ == '__main__':
